@@ -42,6 +42,8 @@ import (
 
 var genAll = map[int]func(*rt.Rec, int, int) seq.Iterator[int]{}
 
+var _ = fmt.Sprint
+
 type In struct {
 	Idx int ` + "`json:\"idx\"`" + `
 }
@@ -57,7 +59,7 @@ func main() {
 		r := rt.NewRec(nil, 500)
 		defer func() {
 			if p := recover(); p != nil {
-				out.Panic = fmt.Sprint(p)
+				out.Panic = rt.PanicStr(p)
 			}
 			out.Log = r.Log
 		}()
